@@ -108,7 +108,12 @@ func c17Doc(r *fw.Rand) (*docdid.Doc, []c17Key, string) {
 	if nk == 0 && ns == 0 {
 		ns = 1
 	}
-	for _, id := range genPick(r, []string{"svc", "hub-1", "linked"}, ns) {
+	if r.Chance(1, 3) {
+		// the supplied document may carry an id of its own (another method's DID): it names nothing in the created DID
+		d.ID = fw.Pick(r, []string{"did:example:123", "did:web:example.com", "did:key:z6Mk"})
+		shape += "I"
+	}
+	for _, id := range genPick(r, []string{"svc", "hub-1", "linked", "didcomm", "linked-domains", "e1", "web"}, ns) {
 		u := fmt.Sprintf("https://s%d.example.com/%s", r.Intn(100), id)
 		svc := docdid.Service{ID: id, Type: fw.Pick(r, []string{"LinkedDomains", "DIDCommMessaging"}), ServiceEndpoint: endpoint.NewDIDCommV1Endpoint(u)}
 		// optional members in every combination (a routing key without recipient keys is a legitimate service)
